@@ -123,6 +123,7 @@ TRANSPARENT = [
     ('cell::Cell::<T>::replace', 0, 'cell'),
     ('option::Option::<T>::as_mut', 0, 'as_ref'),
     ('option::Option::<T>::as_ref', 0, 'as_ref'),
+    ('option::Option::<T>::filter', 0, 'filter'),
     ('option::Option::<T>::map', 0, 'map'),
     ('result::Result::<T, E>::map', 0, 'map'),
     ('::from_le_bytes', 0, 'from_le'),
@@ -131,6 +132,9 @@ TRANSPARENT = [
     ('::to_le_bytes', 0, 'to_le'),
     ('::to_be_bytes', 0, 'to_be'),
     ('::to_ne_bytes', 0, 'to_ne'),
+    ('slice::<impl [T]>::is_empty', 0, 'is_empty'),
+    ('vec::Vec::<T, A>::is_empty', 0, 'is_empty'),
+    ('str::<impl str>::is_empty', 0, 'is_empty'),
     ('slice::<impl [T]>::len', 0, 'len'),
     ('str::<impl str>::len', 0, 'len'),
     ('vec::Vec::<T, A>::len', 0, 'len'),
@@ -895,3 +899,38 @@ def _local_tree(body, l, depth):
     if k == 'un':
         return (rv['op'], expr_tree(body, rv['a'], depth - 1))
     return ('?', k)
+
+
+def deep_fields(body, op, depth=3):
+    """field names a value derives from, also looking into the arguments of non-transparent calls"""
+    seen = set()
+    todo = [(op, 0)]
+    n = 0
+    while todo and n < 200:
+        n += 1
+        o_, d = todo.pop()
+        o = origin(body, o_)
+        seen |= o.fields
+        if d < depth:
+            for c in o.calls:
+                if not transparent(c):
+                    for arg in c.get('args', []):
+                        todo.append((arg, d + 1))
+    return seen
+
+
+def const_texts(body, t):
+    """string / byte-string constants reaching the arguments of a call (also through locals): decoded text"""
+    out = []
+    for a in t.get('args', []):
+        o = origin(body, a)
+        for x in o.consts():
+            if isinstance(x, str):
+                if x.startswith('bytes '):
+                    try:
+                        out.append(bytes.fromhex(x[6:]).decode('latin1'))
+                    except ValueError:
+                        pass
+                else:
+                    out.append(x)
+    return out
